@@ -288,6 +288,11 @@ func (rb *RingBuffer) DiscardStride(stride uint64) (err error) {
 	if newRp%stride > 0 {
 		newRp -= newRp % stride
 	}
+	if newRp < rb.desc.readPointer {
+		// No stride boundary lies in the unread region: never move the read pointer backwards,
+		// which would re-expose bytes already read (and can exceed the buffer capacity).
+		return nil
+	}
 	rb.desc.readPointer = newRp
 	return nil
 }
